@@ -41,10 +41,11 @@ def scale(  # pylint: disable=dangerous-default-value  # always replaced by stat
     center, scale = _as_flag(center), _as_flag(scale)
 
     data = numpy.array(data)
-    if data.dtype.kind in "biu":
-        # Integer storage is only a representation of the numbers: compute in
-        # floating point, so that `data - center` and `data**2` cannot wrap
-        # around when centering is disabled or the center is an integer.
+    if data.dtype.kind in "biu" or (data.dtype.kind == "f" and data.dtype.itemsize < 8):
+        # Integer (and half/single precision) storage is only a representation
+        # of the numbers: compute in double precision, so that `data - center`
+        # and `data**2` cannot wrap around (or overflow / lose digits) when
+        # centering is disabled or the center is an integer.
         data = data.astype(numpy.float64)
 
     if "ddof" not in _state:
